@@ -7,6 +7,7 @@ executor processes, transports and shm (a dict per host), and the order in which
 """
 from __future__ import annotations
 
+import copy
 import time
 from typing import Any
 
@@ -521,7 +522,8 @@ class Execution:
 
         _ROUND_HOOK[0] = round_hook
         try:
-            state = impl.run(self.cfg.job, sim, self.cfg.pre)
+            # a fresh copy per execution: the controller must not be able to alias state between executions
+            state = impl.run(self.cfg.job, sim, copy.deepcopy(self.cfg.pre))
             self.status = "returned"
             self._end_checks(state)
         except Stop:
